@@ -90,6 +90,12 @@ class C07(Prop):
                      {"name": "f1", "inputs": ["o0", "y1"] if rng.random() < 0.5 else ["x"], "outputs": ["o1"], "defaults": {}}]
             yield {"nodes": nodes, "n_ops": rng.randint(1, 3), "seed": rng.randint(0, 10**6), "prefix": rng.choice([["addGate"], ["bind", "addGate"], ["select", "addGate"]]),
                    "lateGate": {"name": "gt", "target": rng.choice(["f0", "f1"]), "k": rng.choice([0, 1])}}
+        # whatever the seed: the gated graph has been RUN, then with_entrypoint names the gate's target — the receiver keeps its routing
+        for tgt in ("f0", "f1"):
+            nodes = [{"name": "f0", "inputs": ["x"], "outputs": ["o0"], "defaults": {}},
+                     {"name": "f1", "inputs": ["x"], "outputs": ["o1"], "defaults": {}}]
+            yield {"nodes": nodes, "n_ops": rng.randint(0, 2), "seed": rng.randint(0, 10**6), "prefix": ["addGate", "entryTarget"],
+                   "lateGate": {"name": "gt", "target": tgt, "k": rng.choice([0, 1])}}
         for prefix in (["asNode", "swapInputs"], ["asNode", "mapOver", "swapInputs"], ["asNode", "swapOutputs"], ["asNode", "swapInputs", "swapInputs"]):
             nodes = [{"name": "f0", "inputs": ["x", "y0"], "outputs": ["o0"], "defaults": {}},
                      {"name": "f1", "inputs": ["o0", "y1"], "outputs": ["o1"], "defaults": {"y1": rng.randint(20, 29)} if rng.random() < 0.5 else {}}]
@@ -268,6 +274,11 @@ class C07(Prop):
                     outs = list(recv.outputs)
                     names = rng.sample(outs, rng.randint(1, len(outs)))
                     return {"t": "select", "i": i, "names": names}, recv.select(*names)
+                if choice == "entryTarget":
+                    names = [self._gate.targets[0]]
+                    if names[0] not in recv.nodes:
+                        return None, None
+                    return {"t": "withEntrypoint", "i": i, "names": names}, recv.with_entrypoint(*names)
                 if choice == "withEntrypoint":
                     names = [rng.choice(list(recv.nodes))]
                     return {"t": "withEntrypoint", "i": i, "names": names}, recv.with_entrypoint(*names)
